@@ -46,7 +46,9 @@ def check(run):
         if s["cfg"].get("async_release") or not any(e["a"] == "release" for e in s["behaviour"]):
             continue
         if len(extra) * 3 < len(scenarios):
-            extra.append({"id": len(scenarios) + len(extra) + 1, "cfg": dict(s["cfg"], async_release="1"), "behaviour": s["behaviour"] + [pause]})
+            ms = ("40", "120", "300")[len(extra) % 3]
+            extra.append({"id": len(scenarios) + len(extra) + 1, "cfg": dict(s["cfg"], async_release="1", async_ms=ms),
+                          "behaviour": s["behaviour"] + [dict(pause, i=110 + int(ms))]})
     scenarios += extra
     sfile = run.path("scen.ndjson")
     vlib.write_ndjson(sfile, scenarios)
